@@ -8,6 +8,7 @@ CONSTANTS
   AllowDup = TRUE
   AllowNoPath = TRUE
   AllowStale = TRUE
+  WholeOnly = FALSE
   Sizes = {1}
   FixCommonSnapshot = TRUE
   GenDepth = 0
